@@ -190,6 +190,8 @@ def execute(case: dict) -> Outcome:
             # first tracking done (previous pass): edit the live object in place, track again
             rt = cfg["retrack"]
             nonempty = [k for k, e in enumerate(etc.emulsions) if len(e)]
+            if not nonempty:
+                continue  # the first pass emptied the caller's time course (C06's business)
             k = nonempty[rt["frame"] % len(nonempty)]
             em = etc.emulsions[k]
             i = rt["drop"] % len(em)
